@@ -87,7 +87,7 @@ def case_st(draw):
         segs = d.split("/") if d else []
         L = dir_resource(d)
     else:
-        rel = draw(st.sampled_from(sorted(FILES)))
+        rel = draw(st.sampled_from(sorted(FILES) + [f for f in sorted(FILES) if not f.isascii()] * 2))
         segs = rel.split("/")
         L = "/" + rel
     kind = draw(st.integers(0, 5))
@@ -320,7 +320,7 @@ def _bucket(case, v):
 
 
 LANES = [
-    Lane(name="rules", run_case=run_case, strategy=case_st, budget={"quick": 3200, "thorough": 48000},
+    Lane(name="rules", run_case=run_case, strategy=case_st, budget={"quick": 6400, "thorough": 64000},
          shards={"quick": 16, "thorough": 64}, nontrivial=_nontrivial, labels=_labels, bucket=_bucket,
          rule="start_server + certificate rules over in-memory TLS with real client certificates"),
 ]
